@@ -1921,6 +1921,10 @@ fn feat_node(n: &PNode, parent_compact: bool, flow: bool, out: &mut Vec<&'static
             }
         }
         PNode::Map { flow: f, compact, entries, .. } => {
+            // the block scalar under the key on the `- ` line, with further keys after it (V4)
+            if *compact && !*f && entries.len() >= 2 && is_bs(&entries[0].3) {
+                out.push("bs-in-compact-map");
+            }
             for (m, k, ks, x) in entries {
                 feat_meta(m, out);
                 if !(*f || flow) && *ks == KStyle::Plain && (k.contains('[') || k.contains('{')) {
